@@ -45,7 +45,7 @@ pub fn run_header(src: &str) -> Outcome {
     }
 }
 
-const TOKS: &[&str] = &["a", ":", ",", "[", "]", "1", "99999999999999999999999", "\"s\"", "!", "::", "(", ")", "*", " ", "é", "}", "{", "\"", "\\"];
+const TOKS: &[&str] = &["a", ":", ",", "[", "]", "1", "99999999999999999999999", "\"s\"", "!", "::", "(", ")", "*", " ", "é", "}", "{", "\"", "\\", "\u{2028}", "\u{85}"];
 
 // ---------------------------------------------------------------- lex specifications
 fn lex_once(src: String) -> Result<String, String> {
@@ -80,7 +80,7 @@ pub fn run_lex(src: &str) -> Outcome {
     }
 }
 
-const LEXTOKS: &[&str] = &["%%", "\n", "\n", " ", "\t", "a", "'a'", "\"b\"", ";", "<", ">", "+", "AA", "%s", "%x", ",", "\\", "\u{0085}", "\u{200E}", "\u{2028}", "//", "é", "[", "*", "\r"];
+const LEXTOKS: &[&str] = &["%%", "\n", "\n", " ", "\t", "a", "'a'", "\"b\"", ";", "<", ">", "+", "AA", "%s", "%x", ",", "\\", "\u{0085}", "\u{200E}", "\u{2028}", "//", "é", "[", "*", "\r", "%grmtools{nest_limit: 4294967296}\n", "%grmtools{size_limit: 18446744073709551615, dfa_size_limit: 5}\n", "%grmtools{!octal, nest_limit: 3}\n"];
 
 pub fn search_lex(tier: &str) -> Option<Value> {
     let n = if tier == "thorough" { 400_000 } else { 40_000 };
@@ -88,7 +88,12 @@ pub fn search_lex(tier: &str) -> Option<Value> {
     let mut next = |m: usize| { st = st.wrapping_mul(6364136223846793005).wrapping_add(1442695040888963407); ((st >> 33) as usize) % m };
     for _ in 0..n {
         let mut s = String::new();
-        match next(3) { 0 => s.push_str("%%\n"), 1 => s.push_str("%s AA\n%%\n"), _ => {} }
+        match next(5) {
+            0 => s.push_str("%%\n"),
+            1 => s.push_str("%s AA\n%%\n"),
+            2 => { s.push_str(["%grmtools{nest_limit: 4294967296}\n", "%grmtools{size_limit: 18446744073709551615}\n", "%grmtools{dfa_size_limit: 99999999999999999999}\n", "%grmtools{nest_limit: 5, !octal}\n"][next(4)]); s.push_str("%%\n"); }
+            _ => {}
+        }
         let l = 1 + next(9);
         for _ in 0..l { s.push_str(LEXTOKS[next(LEXTOKS.len())]); }
         let o = run_lex(&s);
